@@ -47,6 +47,7 @@ def coverage(prop, executed, rejected, tier):
         "faults_armed_fired": {k: int(v) for k, v in sorted(total.items()) if k.startswith("fault:")},
         "probes": {k[6:]: int(v) for k, v in sorted(total.items()) if k.startswith("probe:")},
         "modes": {k[5:]: int(v) for k, v in sorted(total.items()) if k.startswith("mode:")},
+        "sampler_construction": {k[5:]: int(v) for k, v in sorted(total.items()) if k.startswith("ctor:")},
         "entropy": {"draws": int(total.get("entropy_draws", 0)), "steered": int(total.get("entropy_steered", 0)),
                     "edge_values": int(total.get("entropy_edges", 0)), "seed_calls": int(total.get("seed_calls", 0))},
         "terminal": {"atoms_that_received_terminal": int(total.get("terminal_received", 0)),
